@@ -10,7 +10,7 @@ class C17(core.Check):
     pid = 'C17'
     driver = 'drv_c17'
     quick_cases = 2100
-    thorough_cases = 25000
+    thorough_cases = 18000
     rule = ('random training frames (0-10 rows; regression targets incl. NaN, binary and 3-5-class integer targets with '
             'absent classes; 0-3 categorical columns of cardinality 1-4 with ~20% missing entries, 0-2 numerical columns '
             'incl. NaN; COUNT statistics of the frame itself or of a larger dataset; column names that contain "_<digit>") '
